@@ -470,6 +470,7 @@ bool file_exists(char *path);
 
 extern StringArray include_paths;
 extern bool opt_fpic;
+extern bool in_pp_const_expr;
 extern bool opt_fcommon;
 extern bool opt_E;
 extern char *base_file;
